@@ -274,6 +274,13 @@ def unescape_string(val):
 _UNESCAPE_VALUE = re.compile(r'\\([\\,;:])')
 
 
+_UNESCAPE_COLON = re.compile(r'\\([\\:])')
+
+
+def _unescape_colon_match(match):
+    return ':' if match.group(1) == ':' else match.group(0)
+
+
 def unescape_list_or_string(val):
     if isinstance(val, list):
         return [unescape_string(s) for s in val]
@@ -317,8 +324,12 @@ class Contentline(str):
             return cls(f'{name};{params}:{values}')
         return cls(f'{name}:{values}')
 
-    def parts(self):
+    def parts(self, text=False):
         """Split the content line up into (name, parameters, values) parts.
+
+        :param text: Whether the value is handed on to a TEXT decoder
+            (:class:`icalendar.prop.vText` or a list of them) and must keep
+            its backslash escapes.
         """
         try:
             name_split = None
@@ -356,7 +367,13 @@ class Contentline(str):
                 (unescape_string(key), unescape_list_or_string(value))
                 for key, value in iter(params.items())
             )
-            values = _UNESCAPE_VALUE.sub(r'\1', self[value_split + 1:])
+            raw_value = self[value_split + 1:]
+            if text:
+                # TEXT values are decoded once, by their value type. Only the
+                # escaped colon, which TEXT does not know, is decoded here.
+                values = _UNESCAPE_COLON.sub(_unescape_colon_match, raw_value)
+            else:
+                values = _UNESCAPE_VALUE.sub(r'\1', raw_value)
             return (name, params, values)
         except ValueError as exc:
             raise ValueError(
